@@ -3,21 +3,31 @@
 package quic
 
 import (
+	"github.com/refraction-networking/uquic/internal/handshake"
+	"github.com/refraction-networking/uquic/internal/monotime"
 	"github.com/refraction-networking/uquic/internal/protocol"
 	"github.com/refraction-networking/uquic/internal/wire"
 )
 
-// Exporter for the verification harness (property C03): the real cryptoStreamManager with its
-// Initial / Handshake / 1-RTT crypto streams. Add-only facade; no behaviour is changed.
+// Add-only exporters of the unexported packet protection functions (property C05).
 
-type VerifCryptoManager struct{ m *cryptoStreamManager }
-
-func VerifNewCryptoManager() *VerifCryptoManager {
-	return &VerifCryptoManager{m: newCryptoStreamManager(newInitialCryptoStream(false), newCryptoStream(), newCryptoStream())}
+// VerifEncryptPacket is packetPacker.encryptPacket (the receiver is not used by the method).
+func VerifEncryptPacket(raw []byte, s handshake.LongHeaderSealer, pn protocol.PacketNumber, payloadOffset, pnLen protocol.ByteCount) []byte {
+	return (&packetPacker{}).encryptPacket(raw, s, pn, payloadOffset, pnLen)
 }
 
-func (v *VerifCryptoManager) HandleCryptoFrame(f *wire.CryptoFrame, lvl protocol.EncryptionLevel) error {
-	return v.m.HandleCryptoFrame(f, lvl)
+// VerifUnpackLongHeaderPacket is packetUnpacker.unpackLongHeaderPacket.
+func VerifUnpackLongHeaderPacket(opener handshake.LongHeaderOpener, hdr *wire.Header, data []byte) (*wire.ExtendedHeader, []byte, error) {
+	return (&packetUnpacker{}).unpackLongHeaderPacket(opener, hdr, data)
 }
-func (v *VerifCryptoManager) GetCryptoData(lvl protocol.EncryptionLevel) []byte { return v.m.GetCryptoData(lvl) }
-func (v *VerifCryptoManager) Drop(lvl protocol.EncryptionLevel) error            { return v.m.Drop(lvl) }
+
+// VerifUnpackShortHeaderPacket is packetUnpacker.unpackShortHeaderPacket.
+func VerifUnpackShortHeaderPacket(opener handshake.ShortHeaderOpener, connIDLen int, rcvTime monotime.Time, data []byte) (protocol.PacketNumber, protocol.PacketNumberLen, protocol.KeyPhaseBit, []byte, error) {
+	return (&packetUnpacker{shortHdrConnIDLen: connIDLen}).unpackShortHeaderPacket(opener, rcvTime, data)
+}
+
+// VerifIsHeaderParseError reports whether err is the unpacker's headerParseError.
+func VerifIsHeaderParseError(err error) bool {
+	_, ok := err.(*headerParseError)
+	return ok
+}
